@@ -3825,6 +3825,58 @@ def _settled_before(tree, fn, stmt, attr):
     return True
 
 
+def _has_loose_loop(fn, block):
+    """the block is (inside) a loop body: a later turn of the loop runs code before the binding again"""
+    for n in ast.walk(fn):
+        if isinstance(n, (ast.For, ast.While)) and any(b is block for b in _blocks(n)):
+            return True
+    return False
+
+
+def _self_store_closure(tree, fn):
+    """{method name: attributes of self it may (re)bind, directly or through the self.<method>() calls it makes} for the class of fn"""
+    owner = None
+    for c in ast.walk(tree):
+        if isinstance(c, ast.ClassDef) and any(x is fn for x in ast.walk(c)):
+            owner = c
+    if owner is None:
+        return None
+    direct, calls = {}, {}
+    for m in owner.body:
+        if isinstance(m, (ast.FunctionDef, ast.AsyncFunctionDef)):
+            direct[m.name] = {n.attr for n in ast.walk(m) if isinstance(n, ast.Attribute) and isinstance(n.ctx, (ast.Store, ast.Del)) and isinstance(n.value, ast.Name) and n.value.id == 'self'}
+            calls[m.name] = {n.func.attr for n in ast.walk(m) if isinstance(n, ast.Call) and isinstance(n.func, ast.Attribute) and isinstance(n.func.value, ast.Name) and n.func.value.id == 'self'}
+    out = {k: set(v) for k, v in direct.items()}
+    for _ in range(len(out) + 1):
+        changed = False
+        for k in out:
+            for c in calls[k]:
+                if c in out and not out[c] <= out[k]:
+                    out[k] |= out[c]
+                    changed = True
+        if not changed:
+            break
+    return out
+
+
+def _quiet_span(tree, fn, stmts, attr):
+    """none of the statements re-binds self.<attr>: no direct store, no self.<method>() call whose (transitive) stores include it, no
+    setattr; calls on other objects are taken not to reach back into self's private attribute"""
+    clo = _self_store_closure(tree, fn)
+    if clo is None:
+        return False
+    for st in stmts:
+        for n in ast.walk(st):
+            if isinstance(n, ast.Attribute) and isinstance(n.ctx, (ast.Store, ast.Del)) and n.attr == attr:
+                return False
+            if isinstance(n, ast.Call) and isinstance(n.func, ast.Name) and n.func.id in ('setattr', 'delattr'):
+                return False
+            if isinstance(n, ast.Call) and isinstance(n.func, ast.Attribute) and isinstance(n.func.value, ast.Name) and n.func.value.id == 'self':
+                if n.func.attr not in clo or attr in clo[n.func.attr]:
+                    return False
+    return True
+
+
 def _stable_chain(e, unstable, fn=None, tree=None, stmt=None):
     """`self.a.b` / `Class.CONST` / `self.q.get`: a chain of attribute reads from a plain name in which no attribute is ever re-bound
     after construction - reading it again later gives the same object"""
@@ -3870,6 +3922,36 @@ def inline_temps(tree, path, ref_locals):
                 break               # plain renames are the business of the alpha pass
             stores = _stores(fn)
             progressed = False
+            # `v = E; self.a = v; .. v ..`  (v new, bound once)  ->  `self.a = E; .. self.a ..`  when nothing in between re-binds self.a
+            for name in unknown:
+                if stores.get(name) != 1 or progressed:
+                    continue
+                for block in _blocks(fn):
+                    for i in range(len(block) - 1):
+                        a, b = block[i], block[i + 1]
+                        if isinstance(a, ast.Assign) and len(a.targets) == 1 and isinstance(a.targets[0], ast.Name) and a.targets[0].id == name and \
+                                isinstance(b, ast.Assign) and len(b.targets) == 1 and isinstance(b.targets[0], ast.Attribute) and isinstance(b.targets[0].value, ast.Name) and \
+                                b.targets[0].value.id == 'self' and isinstance(b.value, ast.Name) and b.value.id == name:
+                            attr = b.targets[0].attr
+                            uses_ = [n for n in ast.walk(fn) if isinstance(n, ast.Name) and n.id == name and isinstance(n.ctx, ast.Load) and n is not b.value]
+                            idxs = [k for k in range(i + 2, len(block)) if any(u is x for u in uses_ for x in ast.walk(block[k]))]
+                            if uses_ and not all(any(u is x for s_ in block[i + 2:] for x in ast.walk(s_)) for u in uses_):
+                                continue
+                            span = block[i + 2:(max(idxs) + 1 if idxs else i + 2)]
+                            if _has_loose_loop(fn, block) or not _quiet_span(tree, fn, span, attr):
+                                continue
+                            look = ast.Attribute(value=ast.Name(id='self', ctx=ast.Load()), attr=attr, ctx=ast.Load())
+                            sub = _Subst({name: look})
+                            block[i + 2:] = [sub.visit(s_) for s_ in block[i + 2:]]
+                            b.value = a.value
+                            del block[i]
+                            total += 1
+                            progressed = True
+                            break
+                    if progressed:
+                        break
+            if progressed:
+                continue
             for name in unknown:
                 if stores.get(name) != 1:
                     continue
@@ -3885,6 +3967,18 @@ def inline_temps(tree, path, ref_locals):
                 if not uses:
                     continue
                 alias = _stable_chain(st.value, unstable, fn, tree, st) and not any(isinstance(n, ast.Name) and n.id in _stores(fn) for n in ast.walk(st.value))
+                if not alias and isinstance(st.value, ast.Attribute) and isinstance(st.value.value, ast.Name) and st.value.value.id == 'self' and st.value.attr.startswith('_'):
+                    # a private attribute of self read once and used for a while: the same as reading it at each use when nothing
+                    # between the binding and the last use (in this block) can re-bind it
+                    idxs = [k for k in range(i + 1, len(block)) if any(u is x for u in uses for x in ast.walk(block[k]))]
+                    if idxs and all(any(u is x for s_ in block[i + 1:] for x in ast.walk(s_)) for u in uses):
+                        last = block[max(idxs)]
+                        span = block[i + 1:max(idxs)]
+                        # in the last statement only what is evaluated up to the use counts: take the whole statement when it is simple
+                        if not isinstance(last, (ast.If, ast.For, ast.While, ast.Try, ast.With)) or all(any(u is x for root in _stmt_exprs(last) for x in ast.walk(root)) or
+                                                                                                          not any(u is x for x in ast.walk(last)) for u in uses):
+                            alias = _quiet_span(tree, fn, span + ([ast.Expr(value=r) for r in _stmt_exprs(last)] if isinstance(last, (ast.If, ast.For, ast.While)) else []),
+                                                st.value.attr) and not _has_loose_loop(fn, block)
                 reads_self = not alias and any(isinstance(n, ast.Attribute) and isinstance(n.value, ast.Name) and n.value.id == 'self' for n in ast.walk(st.value))
                 if len(uses) > 1 and _creates_object(st.value):
                     continue            # two uses of one list / iterator / array are two views of ONE object: writing the expression twice makes two
